@@ -125,6 +125,58 @@ def check_threads(seed, n_cases=6):
         if v:
             viol.append(dict(kind="threads", case="paused_build", violations=v))
 
+    # (d) a SECOND BUILD is started (and has to wait for the build lock) while the first build is paused inside its
+    #     describing function: both DAGs must come out as if built one after the other
+    cases += 1
+    inside2, release2 = threading.Event(), threading.Event()
+    built2, errs2 = {}, {}
+
+    def builder_a():
+        def first(x):
+            r = inc(x)
+            inside2.set()
+            release2.wait(5)
+            return both(r, x)
+
+        first.__qualname__ = first.__name__ = "first"
+        try:
+            built2["a"] = dag(first)
+        except BaseException as e:  # noqa: BLE001
+            errs2["a"] = f"{type(e).__name__}: {str(e)[:80]}"
+
+    def builder_b():
+        def second(y):
+            return both(inc(y), inc(y))
+
+        second.__qualname__ = second.__name__ = "second"
+        try:
+            built2["b"] = dag(second)
+        except BaseException as e:  # noqa: BLE001
+            errs2["b"] = f"{type(e).__name__}: {str(e)[:80]}"
+
+    ta2 = threading.Thread(target=builder_a)
+    ta2.start()
+    if inside2.wait(5):
+        tb2 = threading.Thread(target=builder_b)
+        tb2.start()
+        time.sleep(0.3)  # B reaches the build lock (held by A) and waits there
+        release2.set()
+        ta2.join(8)
+        tb2.join(8)
+        v = []
+        if errs2:
+            v.append(f"overlapping builds raised {errs2}")
+        da, db = built2.get("a"), built2.get("b")
+        if da is not None and (sorted(da.exec_nodes) != sorted(["first>!>x", inc.id, both.id]) or da(3) != ("both", ("inc", 3), 3)):
+            v.append(f"the DAG whose build was overlapped by another build contains {sorted(da.exec_nodes)} / computes {da(3)!r}")
+        if db is not None and db(4) != ("both", ("inc", 4), ("inc", 4)):
+            v.append(f"the DAG built while waiting for the first build computes {db(4)!r}")
+        if v:
+            viol.append(dict(kind="threads", case="overlapping_builds", violations=v))
+    else:
+        release2.set()
+        viol.append(dict(kind="threads", case="overlapping_builds", violations=["builder thread never reached its describing function"]))
+
     # (c) concurrent builds == sequential builds, with the unlucky hand-over forced: T1 has just released the build
     #     lock, T2 acquires it and starts describing, then T1 finishes its clean-up
     cases += 1
